@@ -150,3 +150,13 @@ Example ex_json_full_name :
   json_name ([34; 92; 0; 60; 1] ++ zrepeat 0 27) = Some (Ok ([34; 92; 0; 60; 1] ++ zrepeat 0 27)) /\
   json_name ([200] ++ zrepeat 0 31) = None.
 Proof. vm_compute. repeat split; reflexivity. Qed.
+
+(* ---- format constants ----
+   The models take their format constants from Gen/Consts.v, which is regenerated from /repo's
+   source on every run; Spec/ConstPins.v (committed, written by bin/mkpins) pins every one of them
+   to the value the specifications give it.  A constant that drifts in the Go source breaks this
+   theorem instead of being silently followed by model and generator. *)
+From Fiano Require Spec.ConstPins.
+Theorem C13_format_constants_pinned : Spec.ConstPins.pinned_c13.
+Proof. exact Spec.ConstPins.pins_c13. Qed.
+Print Assumptions C13_format_constants_pinned.
